@@ -49,8 +49,8 @@ ASSUMPTIONS = [
     "dask.dataframe is imported with a stub `pyarrow` package (absent from the sandbox)",
 ]
 STUBS = ["stub pyarrow for import", "duck-typed `self` for LocSlice / LocElement / LocList methods"]
-ENUM = ["number of partitions, None-ness of the loc bounds, number of labels in a list indexer", "all inputs of the numeric more-partitions path (float interpolation)"]
-OUTSIDE = ["set_index (quantile sketches, pandas searchsorted)", "index-aligned merges / concat, filters (pandas kernels)", "datetime partial-string indexing",
+ENUM = ["number of partitions, None-ness of the loc bounds, number of labels in a list indexer", "every input of set_index[...] and from_pandas[...]", "all inputs of the numeric more-partitions path (float interpolation)"]
+OUTSIDE = ["set_index beyond the solver-enumerated small frames of set_index[...] (quantile sketches, pandas searchsorted: no symbolic claim)", "index-aligned merges / concat, filters (pandas kernels)", "datetime partial-string indexing",
            "loc with a negative step (ReverseDataFrame drops the divisions)"]
 BOUNDS = {
     "quick": dict(loc_slice="1..3 partitions, divisions unbounded symbolic ints, bounds symbolic or None", loc_list="2..3 partitions, <=2 labels",
@@ -335,13 +335,52 @@ def mk_from_pandas(L):
     return Obligation(f"from_pandas[len<={L}]", setup, run)
 
 
+def mk_set_index(L, nparts):
+    """set_index(col) on the automatic path (no sorted=, no divisions=): the column values and the partition cuts are solver-enumerated, with
+    sequences that are already sorted across partitions (duplicates touching a partition boundary included) and unsorted ones"""
+    def setup(e):
+        n = 2 + e.choice("len", L - 1)
+        seq, prev = [], 0
+        for i in range(n):
+            prev = prev + e.choice(f"s{i}", 3)
+            seq.append(prev)
+        cuts = sorted({e.choice(f"cut{j}", n + 1) for j in range(nparts - 1)})
+        rev = e.flag("reversed")
+        return seq, cuts, rev
+
+    def run(e, seq, cuts, rev):
+        import dask
+        vals = list(reversed(seq)) if rev else list(seq)
+        df = pd.DataFrame({"k": vals, "x": range(len(vals))})
+        b = [0] + list(cuts) + [len(vals)]
+        parts = [df.iloc[lo:hi] for lo, hi in zip(b, b[1:])]
+        ddf = dd.from_delayed([dask.delayed(p) for p in parts], meta=df.iloc[:0], verify_meta=False)
+        out = ddf.set_index("k")
+        d = out.divisions
+        got = out.compute(scheduler="sync")
+        e.check(sorted(zip(got.index.tolist(), got.x.tolist())) == sorted(zip(vals, range(len(vals)))), "set_index changed the multiset of rows")
+        if d[0] is None:
+            return "unknown divisions"
+        e.check(list(d) == sorted(d), f"set_index divisions not sorted: {d}")
+        frames = dask.compute(*out.to_delayed(), scheduler="sync")
+        m = len(frames)
+        e.check(m == len(d) - 1, f"npartitions {m} != len(divisions)-1 ({d})")
+        for i, fr in enumerate(frames):
+            for x in fr.index:
+                ok = (d[i] <= x <= d[i + 1]) if i == m - 1 else (d[i] <= x < d[i + 1])
+                e.check(ok, f"set_index: partition {i} of divisions {d} holds index value {x} (column {vals} cut at {cuts})")
+        return [int(x) for x in d]
+
+    return Obligation(f"set_index[len<={L},parts<={nparts}]", setup, run)
+
+
 def obligations(tier):
     obs = []
     if tier == "quick":
         for n in (1, 2, 3):
             obs.append(mk_loc_slice(n))
             obs.append(mk_partition_of(n))
-        obs += [mk_loc_element(3), mk_loc_list(2, 2), mk_loc_list(3, 2), mk_more_numeric(2, 5), mk_from_pandas(4)]
+        obs += [mk_loc_element(3), mk_loc_list(2, 2), mk_loc_list(3, 2), mk_more_numeric(2, 5), mk_from_pandas(4), mk_set_index(4, 2)]
         for na in (2, 3):
             for nb in (2, 3):
                 obs.append(C44.mk_div(na, nb, False))
@@ -350,7 +389,7 @@ def obligations(tier):
         for n in (1, 2, 3, 4, 5):
             obs.append(mk_loc_slice(n))
             obs.append(mk_partition_of(n))
-        obs += [mk_loc_element(4), mk_loc_list(2, 3), mk_loc_list(3, 3), mk_loc_list(4, 2), mk_more_numeric(3, 8), mk_from_pandas(7)]
+        obs += [mk_loc_element(4), mk_loc_list(2, 3), mk_loc_list(3, 3), mk_loc_list(4, 2), mk_more_numeric(3, 8), mk_from_pandas(7), mk_set_index(6, 3)]
         for na in (2, 3, 4):
             for nb in (2, 3, 4, 5):
                 for force in (False, True):
